@@ -197,6 +197,29 @@ Theorem C19_wrappers_preserve_order :
 Proof. exact pipeline_fifo. Qed.
 Print Assumptions C19_wrappers_preserve_order.
 
+(* the host's destinations (internal/rwc: a rule without a token starts Reconnect, one with a token
+   ReconnectAuth): whichever is chosen, every clause about the loop holds - all schedules, all
+   cancellation points.  [reconnects_properly l] is the conjunction of C19_retries_forever,
+   C19_waits_grow_and_cap, C19_reset_after_success and C19_quiescent_after_cancel for loop kind l. *)
+Theorem C19_host_destination_reconnects :
+  forall token_is_empty, reconnects_properly (wrapper_choice token_is_empty).
+Proof. exact host_destination_reconnects. Qed.
+Print Assumptions C19_host_destination_reconnects.
+
+(* the file tool (internal/file) and pkg/client (hence pkg/status) always start ReconnectAuth *)
+Theorem C19_file_tool_reconnects :
+  reconnects_properly file_choice /\ reconnects_properly client_pkg_choice.
+Proof. exact file_tool_reconnects. Qed.
+Print Assumptions C19_file_tool_reconnects.
+
+Example C19_wrapper_choice_witness :
+  wrapper_choice true = LPlain /\ wrapper_choice false = LAuth /\ file_choice = LAuth /\
+  map ev_wait (client (wrapper_choice true) (mkcfg 1000000000 10000000000 2)
+                 [(AOk, Refuse); (AOk, Http5xx); (AOk, AcceptThenDrop 3); (AOk, AcceptThenStay 7)] (Some (3%nat, CConn 7)))
+    = [0; 1000000000; 2000000000; 0] /\
+  good_cfg (mkcfg 1000000000 10000000000 2).
+Proof. vm_compute. repeat split; try discriminate; reflexivity. Qed.
+
 (* pkg/status' decoding stage: after n messages taken from Receive, Status has been handed exactly the
    decodable ones among them, in order (undecodable ones are dropped, nothing else is) - for every
    verdict function of the decoder *)
